@@ -1,45 +1,77 @@
 //! One module per property.
 
 pub mod c01;
+#[cfg(gb_dynarec_verif)]
 pub mod c03;
+#[cfg(gb_dynarec_verif)]
 pub mod c04;
+#[cfg(gb_dynarec_verif)]
 pub mod c07;
+#[cfg(gb_dynarec_verif)]
 pub mod c08;
+#[cfg(gb_dynarec_verif)]
 pub mod c09;
+#[cfg(gb_dynarec_verif)]
 pub mod c10;
+#[cfg(gb_dynarec_verif)]
 pub mod c11;
+#[cfg(gb_dynarec_verif)]
 pub mod c12;
+#[cfg(gb_dynarec_verif)]
 pub mod c19;
+#[cfg(gb_dynarec_verif)]
 pub mod c20;
 pub mod cpusweep;
+#[cfg(gb_dynarec_verif)]
 pub mod c13;
+#[cfg(gb_dynarec_verif)]
 pub mod c14;
+#[cfg(gb_dynarec_verif)]
 pub mod c15;
+#[cfg(gb_dynarec_verif)]
 pub mod c16;
+#[cfg(gb_dynarec_verif)]
 pub mod c17;
+#[cfg(gb_dynarec_verif)]
 pub mod c18;
 
 pub fn run(id: &str, tier: &str) -> i32 {
   match id {
     "C01" => c01::run("C01", tier),
     "C02" => c01::run("C02", tier),
+    #[cfg(gb_dynarec_verif)]
     "C03" => c03::run(tier),
+    #[cfg(gb_dynarec_verif)]
     "C04" => c04::run(tier),
     "C05" => cpusweep::run("C05", tier),
     "C06" => cpusweep::run("C06", tier),
+    #[cfg(gb_dynarec_verif)]
     "C07" => c07::run(tier),
+    #[cfg(gb_dynarec_verif)]
     "C08" => c08::run(tier),
+    #[cfg(gb_dynarec_verif)]
     "C09" => c09::run(tier),
+    #[cfg(gb_dynarec_verif)]
     "C10" => c10::run(tier),
+    #[cfg(gb_dynarec_verif)]
     "C11" => c11::run(tier),
+    #[cfg(gb_dynarec_verif)]
     "C12" => c12::run(tier),
+    #[cfg(gb_dynarec_verif)]
     "C13" => c13::run(tier),
+    #[cfg(gb_dynarec_verif)]
     "C14" => c14::run(tier),
+    #[cfg(gb_dynarec_verif)]
     "C15" => c15::run(tier),
+    #[cfg(gb_dynarec_verif)]
     "C16" => c16::run(tier),
+    #[cfg(gb_dynarec_verif)]
     "C17" => c17::run(tier),
+    #[cfg(gb_dynarec_verif)]
     "C18" => c18::run(tier),
+    #[cfg(gb_dynarec_verif)]
     "C19" => c19::run(tier),
+    #[cfg(gb_dynarec_verif)]
     "C20" => c20::run(tier),
     _ => {
       eprintln!("unknown property id {}", id);
@@ -81,9 +113,15 @@ pub fn replay(id: &str, path: &str) -> i32 {
 
 pub fn worker(id: &str, args: &[String]) -> i32 {
   match id {
+    "C01" => c01::worker("C01", args),
+    "C02" => c01::worker("C02", args),
+    #[cfg(gb_dynarec_verif)]
     "C03" => c03::worker(args),
+    #[cfg(gb_dynarec_verif)]
     "C04" => c04::worker(args),
+    #[cfg(gb_dynarec_verif)]
     "C09" => c09::worker(args),
+    #[cfg(gb_dynarec_verif)]
     "C18" => c18::worker(args),
     _ => {
       eprintln!("no worker mode for {}", id);
